@@ -44,7 +44,9 @@ def union_no_overlap(events1: List[Event], events2: List[Event]) -> List[Event]:
       result   | xxx--  xx ----xxx  -- |
     """
     events1 = deepcopy(events1)
-    events2 = deepcopy(events2)
+    # A zero-length event sharing its timestamp with a longer event of the same list goes first,
+    # so that it is still compared with the events1 entry covering that instant
+    events2 = sorted(deepcopy(events2), key=lambda e: (e.timestamp, e.duration))
 
     # I looked a lot at aw_transform.union when I wrote this
     events_union = []
